@@ -15,6 +15,8 @@ import (
 type Ctx struct {
 	*Run
 	Thorough bool
+	Arch     string            // GOARCH of this pass ("" = amd64)
+	Overlay  map[string][]byte // file overlays (checker self-test variants)
 	mu       sync.Mutex
 	mods     map[string]*Module
 	ixs      map[string]*PkgIndex
@@ -29,7 +31,7 @@ func (c *Ctx) Mod(dir string) *Module {
 		return m
 	}
 	c.mu.Unlock()
-	m, err := LoadModule(dir, "")
+	m, err := LoadModule(dir, c.Arch, c.Overlay)
 	if err != nil {
 		c.add("infra", VUndecided, "load|"+dir, "-", err.Error())
 		m = nil
@@ -146,19 +148,43 @@ func main() {
 	os.Exit(exit)
 }
 
+// execPass runs the property's rule set once (one GOARCH, optional overlay) into run.
+func execPass(run *Run, pd *PropDoc, arch string, overlay map[string][]byte) {
+	c := &Ctx{Run: run, Thorough: run.Tier == "thorough", Arch: arch, Overlay: overlay, mods: map[string]*Module{}, ixs: map[string]*PkgIndex{}, les: map[string]*LockEngine{}}
+	defer func() {
+		if r := recover(); r != nil {
+			run.add("infra", VUndecided, "analyser-panic", "-", fmt.Sprintf("analyser panic: %v\n%s", r, debug.Stack()))
+		}
+	}()
+	c.Preload(pd.Modules...)
+	pd.Fn(c)
+}
+
 func runProp(id, tier, verif, replay string) (code int) {
 	pd := props[id]
 	start := time.Now()
 	run := NewRun(id, tier)
-	c := &Ctx{Run: run, Thorough: tier == "thorough", mods: map[string]*Module{}, ixs: map[string]*PkgIndex{}, les: map[string]*LockEngine{}}
-	func() {
-		defer func() {
-			if r := recover(); r != nil {
-				run.add("infra", VUndecided, "analyser-panic", "-", fmt.Sprintf("analyser panic: %v\n%s", r, debug.Stack()))
+	execPass(run, pd, "", nil)
+	if tier == "thorough" {
+		// second build configuration: linux/386 (covers files selected by 32-bit build constraints)
+		r2 := NewRun(id, tier)
+		execPass(r2, pd, "386", nil)
+		for _, o := range r2.obs {
+			o.Msg = "[GOARCH=386] " + o.Msg
+			run.obs = append(run.obs, o)
+			if ri := run.rules[o.Rule]; ri != nil {
+				ri.Found++
 			}
-		}()
-		c.Preload(pd.Modules...)
-		pd.Fn(c)
-	}()
+		}
+		run.Note(fmt.Sprintf("second configuration GOARCH=386: %d obligations", len(r2.obs)))
+		// checker self-test over the recorded variants (in-memory overlays)
+		st := runSelfTest(pd, verif)
+		run.selftest = st
+		for _, s := range st {
+			if s.Status == "MISSED" || s.Status == "FALSE-ALARM" {
+				fmt.Printf("selftest %s: variant %s expected %s, fired %v\n", s.Status, s.Variant, s.Expect, s.Fired)
+			}
+		}
+	}
 	return run.Finish(verif, start, pd, replay)
 }
